@@ -283,7 +283,8 @@ def cache_yaml(c):
 
 def config_yaml(spec):
     conf = {
-        'services': {'wms': {'srs': list(spec['wms_srs']), 'md': {'title': 'vcheck'}}, 'tms': {}},
+        'services': {'wms': {'srs': list(spec['wms_srs']), 'md': {'title': 'vcheck'}},
+                     'tms': {'use_grid_names': True}},
         'grids': dict((name, grid_yaml(g)) for name, g in spec['grids'].items()),
         'sources': {spec['source']['name']: source_yaml(spec)},
         'caches': dict((c['name'], cache_yaml(c)) for c in spec['caches']),
@@ -531,7 +532,7 @@ def config_specs(kinds=('wms', 'wms', 'tile'), cascade=None, direct=None):
             src['host'] = WMS_HOST
             src['version'] = draw(st.sampled_from(['1.1.1', '1.3.0']))
             src['featureinfo'] = True
-            how = draw(st.sampled_from(['none', 'with-grid', 'without-grid', 'without-grid']))
+            how = draw(st.sampled_from(['none', 'none', 'with-grid', 'without-grid', 'without-grid']))
             if how == 'none':
                 src['supported_srs'] = None
             else:
@@ -567,7 +568,8 @@ def config_specs(kinds=('wms', 'wms', 'tile'), cascade=None, direct=None):
         meta = draw(st.sampled_from([[1, 1], [2, 2], [3, 3], [2, 1], [1, 3], [3, 2]]))
         c1 = {'name': 'c1', 'grid': 'g1', 'sources': ['s0'], 'meta_size': meta,
               'meta_buffer': draw(st.sampled_from([0, 7, 40])), 'backend': _backend(draw),
-              'minimize_meta_requests': draw(st.integers(0, 3)) == 0,
+              # minimize_meta_requests asks the source for arbitrary rectangles: only for sources that can do that
+              'minimize_meta_requests': draw(st.integers(0, 3)) == 0 and kind == 'wms',
               'bulk_meta_tiles': kind == 'tile' and draw(st.booleans())}
         caches = [c1]
         layers = [{'name': 'l1', 'sources': ['c1']}]
